@@ -9,6 +9,18 @@
 #ifndef CQV_BW_HI
 #define CQV_BW_HI 255
 #endif
+#ifndef CQV_U8_LO
+#define CQV_U8_LO 0
+#endif
+#ifndef CQV_U8_HI
+#define CQV_U8_HI 255
+#endif
+#ifndef CQV_P8_LO
+#define CQV_P8_LO 0
+#endif
+#ifndef CQV_P8_HI
+#define CQV_P8_HI 32
+#endif
 #ifndef CQV_BP_MAXCOUNT
 #define CQV_BP_MAXCOUNT (CQV_MAXBUF >> 2)
 #endif
@@ -17,16 +29,13 @@
 /* enforce carquet_bitunpack8_32: width = any byte value, input of EXACTLY bit_width bytes */
 void h_bitunpack8_32(void) {
   int bit_width = nondet_int();
-  __CPROVER_assume(bit_width >= 0 && bit_width <= 255);
+  __CPROVER_assume(bit_width >= CQV_U8_LO && bit_width <= CQV_U8_HI);
   uint8_t *in = malloc((size_t)bit_width);
   uint32_t *vals = malloc(8 * sizeof(uint32_t));
   __CPROVER_assume(in != NULL && vals != NULL);
   carquet_bitunpack8_32(in, bit_width, vals);
-  if (bit_width == 0) CQV_CANARY("width 0");
-  if (bit_width == 5) CQV_CANARY("specialised width");
-  if (bit_width == 32) CQV_CANARY("width 32");
-  if (bit_width == 33) CQV_CANARY("width 33");
-  if (bit_width == 255) CQV_CANARY("width 255");
+  if (bit_width == CQV_U8_LO) CQV_CANARY("lowest width of the range");
+  if (bit_width == CQV_U8_HI) CQV_CANARY("highest width of the range");
   CQV_CANARY("bitunpack8_32 returns");
 }
 
@@ -51,14 +60,13 @@ void h_unpack8_safe_0_32(void) {
 /* enforce carquet_bitpack8_32 (callee contract used by the group loop) */
 void h_bitpack8_32(void) {
   int bit_width = nondet_int();
-  __CPROVER_assume(bit_width >= 0 && bit_width <= 32);
+  __CPROVER_assume(bit_width >= CQV_P8_LO && bit_width <= CQV_P8_HI);
   uint32_t *vals = malloc(8 * sizeof(uint32_t));
   uint8_t *out = malloc((size_t)bit_width);
   __CPROVER_assume(out != NULL && vals != NULL);
   carquet_bitpack8_32(vals, bit_width, out);
-  if (bit_width == 0) CQV_CANARY("pack8 width 0");
-  if (bit_width == 8) CQV_CANARY("pack8 width 8");
-  if (bit_width == 32) CQV_CANARY("pack8 width 32");
+  if (bit_width == CQV_P8_LO) CQV_CANARY("pack8 lowest width of the range");
+  if (bit_width == CQV_P8_HI) CQV_CANARY("pack8 highest width of the range");
   CQV_CANARY("bitpack8_32 returns");
 }
 
